@@ -292,9 +292,12 @@ func runSchedules(in string) {
 		must(json.Unmarshal(sc.Bytes(), &s))
 		run++
 		md := mdefs[(run+int(rng.Int63n(1<<30)))%len(mdefs)]
-		// content: reset through the wrapped graph directly
-		cur0 := listing(ig)
-		must(ig.RemoveTriples(ctx, storeops.Batch(u, cur0)))
+		// initial content of the run: written THROUGH the memoizing store (a tree whose handles share one
+		// cache per graph would otherwise start the run with the previous run's cache), un-gated
+		setFree(true)
+		h0, err := ms.Graph(ctx, gname)
+		must(err)
+		must(h0.RemoveTriples(ctx, storeops.Batch(u, listing(ig))))
 		var init []int
 		if s.C0 == 1 {
 			init = append(init, md.tb)
@@ -302,7 +305,8 @@ func runSchedules(in string) {
 		if s.Wop == "Remove" {
 			init = append(init, md.tw)
 		}
-		must(ig.AddTriples(ctx, storeops.Batch(u, init)))
+		must(h0.AddTriples(ctx, storeops.Batch(u, init)))
+		setFree(false)
 		hs := make([]storage.Graph, 3)
 		for i := 1; i <= 2; i++ {
 			hs[i], err = ms.Graph(ctx, gname)
